@@ -12,7 +12,7 @@ import (
 
 func step(label string, p unsafe.Pointer, k vsched.Kind) {
 	if vsched.Active() {
-		vsched.Step(vsched.Op1(label, vsched.AddrObj(p), k))
+		vsched.Step(vsched.Op1(label, vsched.AtomicObj(p), k))
 	}
 }
 
